@@ -31,6 +31,7 @@ import (
 	"strings"
 	"sync"
 	"sync/atomic"
+	"syscall"
 	"time"
 
 	"github.com/anishathalye/porcupine"
@@ -55,6 +56,7 @@ const (
 	porcTimeout   = 10 * time.Second
 	maxShortOps   = 90
 	stuckRetries  = 12
+	failBudget    = 3
 	replayReruns  = 400
 	replayMaxWall = 90 * time.Second
 )
@@ -191,6 +193,7 @@ func judge(c *collector, h *history, countIt bool) string {
 func oneHistory(c *collector, p params) string {
 	h, stuck, late := runOnce(p, watchdog)
 	if h != nil && h.Panic != "" {
+		c.count("panicking-runs", 1)
 		return judge(c, h, false)
 	}
 	if stuck != "" {
@@ -206,6 +209,9 @@ func oneHistory(c *collector, p params) string {
 			h2, stuck2, late2 := runOnce(p2, watchdog)
 			if stuck2 != "" && late2 <= lateLimit {
 				key := "lost-wakeup/" + p.Layer + "/" + p.Scenario
+				if strings.HasPrefix(stuck2, "hang:") {
+					key = "hang/" + p.Layer + "/" + p.Scenario
+				}
 				c.violation(key, fmt.Sprintf("%s layer, %s scenario, capacity %d, %d producers: %s (reproduced in attempt %d with the same parameters: %s)",
 					p.Layer, p.Scenario, p.Cap, p.Producers, stuck, a+1, stuck2), concWitness{Kind: "concurrent", Key: key, History: h2, Stuck: stuck2})
 				return key
@@ -322,6 +328,12 @@ func laneMain(lane, lanes, n int) *laneResult {
 	for i := lane; i < n; i += lanes {
 		p := genParams(run.Rand("history", i), i)
 		oneHistory(c, p)
+		// every stuck / panicking run costs a watchdog period: once a lane has reported a few of
+		// them it stops (the verdict is a violation anyway; the evidence shows the shortfall)
+		if c.res.Counters["stuck-runs"]+c.res.Counters["panicking-runs"] >= failBudget {
+			c.count("lane-stopped-early-after-repeated-stuck/panicking-runs", 1)
+			break
+		}
 	}
 	verifhooks.SetYieldHook(nil)
 	return c.finish()
@@ -449,6 +461,7 @@ func main() {
 		errb := &bytes.Buffer{}
 		cmd.Stdout = os.Stdout
 		cmd.Stderr = errb
+		cmd.SysProcAttr = &syscall.SysProcAttr{Pdeathsig: syscall.SIGKILL}
 		cmd.Env = append(os.Environ(), "GORACE=halt_on_error=0 history_size=3 log_path="+racePrefix)
 		if err := cmd.Start(); err != nil {
 			run.Fatal("cannot start lane %d: %v", l, err)
@@ -484,7 +497,7 @@ func main() {
 	if ownRaceDir != "" {
 		os.RemoveAll(ownRaceDir)
 	}
-	if run.Get("linearizability:ok") == 0 || run.Get("yield-points-hit") == 0 {
+	if run.Violations() == 0 && (run.Get("linearizability:ok") == 0 || run.Get("yield-points-hit") == 0) {
 		run.Fatal("nothing observed: %d histories checked, %d yield points hit", run.Get("linearizability:ok"), run.Get("yield-points-hit"))
 	}
 	run.Extra("lanes", lanes)
